@@ -66,6 +66,32 @@ def run(ck, w):
     else:
         ck.fail(o, "blockdir::BlockDir::contains", "present set plumbing changed", "open fills exists from list_blocks=%s; contains reads exists=%s" % (okk, recv_ok))
 
+    o = ck.ob("C14.1e", "backup(): every writer of blocks in one backup (the BackupWriter and its FileCombiner) works on ONE BlockDir - the same "
+                        "present set - so content first stored by one is found present by the other")
+    bkb = w.body("backup::backup")
+    holders = []
+    for fb in lib.family("backup::backup"):
+        for bb, j, st in fb.all_assigns():
+            rv = st["rv"]
+            if rv["rk"] == "agg" and rv.get("ak") == "adt" and "block_dir" in (rv.get("fields") or []) and str(rv.get("adt", "")).startswith("backup::"):
+                oo = flow.origins_x(lib, fb, rules.field_operand(st, "block_dir"), through_calls=[r"Try>?::branch$", r"Arc::<T, A>::clone$|Arc<T, A> as std::clone::Clone>::clone$"])
+                srcs = {(x[1], x[2]) for x in oo if x[0] == "call" and (x[1].endswith("Archive::block_dir") or x[1].endswith("BlockDir::open"))}
+                holders.append((rv["adt"], srcs, "%s:%s" % (fb.file, st.get("line"))))
+    for e in bkb.events:
+        if e.bb in bkb.live and e.name == "backup::FileCombiner::new" and e.args:
+            oo = flow.origins_x(lib, bkb, e.args[0], through_calls=[r"Try>?::branch$", r"Arc::<T, A>::clone$|Arc<T, A> as std::clone::Clone>::clone$"])
+            holders.append(("backup::FileCombiner", {(x[1], x[2]) for x in oo if x[0] == "call" and (x[1].endswith("Archive::block_dir") or x[1].endswith("BlockDir::open"))}, e.site()))
+    allsrc = set()
+    for _, srcs, _ in holders:
+        allsrc |= srcs
+    if len(holders) < 2 or not allsrc:
+        ck.fail(o, bkb.name, "anchor-missing", "holders of a block_dir built in backup(): %s" % [(h[0], sorted(h[1])) for h in holders])
+    elif len(allsrc) != 1 or any(h[1] != allsrc for h in holders):
+        ck.fail(o, bkb.name, "block writers work on different BlockDir instances",
+                "each Archive::block_dir() call lists the blocks into its own present set: %s" % [(h[0].split("::")[-1], sorted(h[1])) for h in holders], holders[0][2])
+    else:
+        ck.ok(o, "%d holder(s), one source" % len(holders), sites=[h[2] for h in holders], instances=len(holders))
+
     o = ck.ob("C14.1d", "store_or_deduplicate: every Ok return after a write has recorded the hash in the present set (the same content later in "
                         "this run is then deduplicated, whatever its size)")
     ins = [e for e in sd.events if e.bb in sd.live and re.search(r"HashSet::<T, S, A>::insert$", e.name)]
